@@ -5,7 +5,10 @@ import (
 	"flag"
 	"fmt"
 	"os"
+	"os/signal"
+	"runtime"
 	"sort"
+	"syscall"
 
 	"verif/internal/mon"
 )
@@ -49,6 +52,19 @@ func Main() {
 	}
 	r := mon.New(*prop, *tier, *seed, *part, *out)
 	r.Only = *only
+	// the driver's watchdog sends SIGQUIT: keep what was observed so far (a hang inside the code under test must not
+	// swallow the violations already recorded), then dump the goroutines like the default handler would
+	sig := make(chan os.Signal, 1)
+	signal.Notify(sig, syscall.SIGQUIT)
+	go func() {
+		<-sig
+		r.Inconclusive("watchdog: the monitor did not finish (partial summary written on SIGQUIT)")
+		r.FinishPartial()
+		buf := make([]byte, 1<<20)
+		n := runtime.Stack(buf, true)
+		fmt.Fprintf(os.Stderr, "SIGQUIT: goroutine dump\n%s\n", buf[:n])
+		os.Exit(3)
+	}()
 	f(r)
 	r.Finish()
 }
